@@ -1,3 +1,4 @@
 import Hub.Props.C10
 import Hub.Props.C17
 import Hub.Props.C11
+import Hub.Props.C16
